@@ -23,12 +23,12 @@ Definition done_i (s : state) (i : nat) : state := set_attempts s (mark_done i (
 
 Lemma unprepared_step c s i h id tag pid qs ks : open_query s i h -> stmt_for c id = Some (pid, qs, ks) ->
   step c s (Resp i (RUnprepared id tag)) =
-    if ks_mismatch c s ks then (set_exc (done_i s i) XKsMismatch, [])
+    if ks_mismatch c s ks then (fail_with (done_i s i) XKsMismatch, [])
     else (push_task (done_i s i) (TReprepare h qs (if uses_keyspace_flag (pv c) then ks else None)), []).
 Proof.
   intros O St. rewrite (step_resp_query c s i _ h O). cbn [set_result]. unfold unprepared, stmt_for in *.
   assert (G : forall ps, ps = (pid, qs, ks) -> unprep_go c (set_attempts s (mark_done i (attempts s))) h ps =
-            if ks_mismatch c s ks then (set_exc (done_i s i) XKsMismatch, [])
+            if ks_mismatch c s ks then (fail_with (done_i s i) XKsMismatch, [])
             else (push_task (done_i s i) (TReprepare h qs (if uses_keyspace_flag (pv c) then ks else None)), [])).
   { intros ps ->. unfold unprep_go, ks_mismatch, uses_ks, done_i. reflexivity. }
   destruct (fut_ps c) as [[[fid fqs] fks]|].
@@ -76,7 +76,7 @@ Qed.
 Lemma run_after_prepare_mismatch c s k h id pid pqs pks :
   nth_error (queue s) k = Some (TAfterPrepare h (RPrepared id)) -> fin_exc s = None ->
   fut_ps c = Some (pid, pqs, pks) -> pid <> id ->
-  step c s (Run k) = (set_exc (set_queue s (remove_nth k (queue s))) XIdMismatch, []).
+  step c s (Run k) = (fail_with (set_queue s (remove_nth k (queue s))) XIdMismatch, []).
 Proof.
   intros N E F D. cbn [step]. rewrite N. cbn [run_task]. unfold after_prepare. cbn [fin_exc set_queue]. rewrite E, F.
   cbn [is_some]. destruct (pid =? id) eqn:Q; [apply Z.eqb_eq in Q; congruence|]. reflexivity.
@@ -93,7 +93,7 @@ Definition prepare_error (r : resp) : option fexc :=
   end.
 
 Lemma run_after_prepare_error c s k h r x : nth_error (queue s) k = Some (TAfterPrepare h r) -> fin_exc s = None ->
-  prepare_error r = Some x -> step c s (Run k) = (set_exc (set_queue s (remove_nth k (queue s))) x, []).
+  prepare_error r = Some x -> step c s (Run k) = (fail_with (set_queue s (remove_nth k (queue s))) x, []).
 Proof.
   intros N E P. cbn [step]. rewrite N. cbn [run_task]. unfold after_prepare. cbn [fin_exc set_queue]. rewrite E.
   cbn [is_some]. destruct r; cbn in P; try discriminate; try (inversion P; subst; reflexivity).
